@@ -72,14 +72,38 @@ ExplBy(L, X, eps, widened, asbuilt) ==
   ELSE IF widened /\ Same(L, asbuilt) THEN "widen"
   ELSE IF widened /\ eps /\ SameNoEps(L, asbuilt) THEN "widen+eps-dropped"
   ELSE "no"
+(* As built, the self-check that runs when the end anchor is disabled notices the lost empty word and    *)
+(* falls back to the un-minimised automaton (unless surrogate pairs make the pattern uncompilable), so   *)
+(* AFTER the self-check the loss is excused only for runs in which no self-check can have happened.     *)
+EpsAfterCheck(eps, c) == eps /\ (~c.noend \/ c.surr)
 Expl(L, X) == ExplBy(L, X, run.eps, run.widened, run.asbuilt)
+ExplFinal(L, X) == ExplBy(L, X, EpsAfterCheck(run.eps, run.cfg), run.widened, run.asbuilt)
 JudgeX(why, props, kind) ==
   IF why = "ok" THEN TRUE ELSE EmitX(props, kind, "", IF why = "no" THEN "" ELSE why)
 (* per-test-case checks: only the empty test case may fail, and only after eps-dropped *)
 ExplTcs(bad) == IF bad = {} THEN "ok"
-                ELSE IF run.eps /\ \A i \in bad : tcs[i] = <<>> THEN "eps-dropped" ELSE "no"
+                ELSE IF EpsAfterCheck(run.eps, run.cfg) /\ \A i \in bad : tcs[i] = <<>> THEN "eps-dropped" ELSE "no"
 
 Nothing == DescAst([t |-> "alt", xs |-> <<>>])     \* the empty language
+
+(***************************************************************************)
+(* Level-2 conformance ("spec drift", DESIGN.md 4.4): is the recorded      *)
+(* automaton THE one the transcription of Algo.tla computes from the       *)
+(* recorded clusters?  Counted and reported as a fidelity note, never a    *)
+(* verdict: another correct implementation may build another automaton.    *)
+(***************************************************************************)
+RecEdges(g) == {<<g.edges[i][1], g.edges[i][2], g.syms[g.edges[i][3]]>> : i \in DOMAIN g.edges}
+ModEdges(gr) == {<<gr.es[i].s, gr.es[i].d, gr.es[i].sym>> : i \in DOMAIN gr.es}
+RECURSIVE SameAst(_, _)
+SameAst(a, b) ==
+  /\ a.t = b.t
+  /\ CASE a.t = "cls" -> ToSet(a.s) = ToSet(b.s)
+        [] a.t = "lit" -> a.syms = b.syms
+        [] a.t \in {"cat", "alt"} -> Len(a.xs) = Len(b.xs) /\ \A i \in DOMAIN a.xs : SameAst(a.xs[i], b.xs[i])
+        [] a.t = "rep" -> a.lo = b.lo /\ a.hi = b.hi /\ SameAst(a.x, b.x)
+        [] OTHER -> TRUE
+SameGraph(g, gr, init) == /\ Len(g.nodes) = gr.n /\ g.start = init
+                          /\ ToSet(g.finals) = gr.fin /\ RecEdges(g) = ModEdges(gr)
 
 (***************************************************************************)
 (* initial state and group/run framing                                     *)
@@ -105,7 +129,8 @@ TRun == /\ IsEvent("run") /\ pc \in {"tcs", "done"} /\ tcs # <<>>
                    pre |-> <<>>, cl |-> <<>>, glang |-> Nothing, elang |-> Nothing,
                    fallback |-> FALSE, exprs |-> 0,
                    out |-> [outcome |-> "none"], olang |-> Nothing, okhir |-> FALSE,
-                   eps |-> FALSE, widened |-> FALSE, asbuilt |-> Nothing]
+                   eps |-> FALSE, widened |-> FALSE, asbuilt |-> Nothing, mtrie |-> EmptyGr,
+                   mmin |-> EmptyGr @@ [init |-> 0]]
         /\ (IF "MONDEBUG" \in DOMAIN IOEnv THEN PrintT(<<"RUN", l>>) ELSE TRUE)
         /\ pc' = "run" /\ l' = l + 1 /\ cnt' = Bump({"runs"})
         /\ UNCHANGED <<G, tcs, memo>>
@@ -118,7 +143,13 @@ TPre == /\ IsEvent("pre") /\ pc = "run" /\ Ev.r = run.r
                ok1 == PreOk(tcs, Ev.list, c)
                ok2 == ~run.judged \/ SameLang(ExpAst(Ev.list, c, G), ExpAst(tcs, c, G), G)
                ok3 == NoDup(Ev.list) /\ Ev.sorted
-           IN /\ Judge(ok1, IF c.icase THEN {"C04", "C01"} ELSE {"C01", "C02"}, "pre-set", "")
+               \* C04: test cases that differ only by case collapse to one entry - judged only when every
+               \* character's lower-casing keeps the count and is known to the engine (MC_Fold!Collapse)
+               stable == \A i \in DOMAIN tcs : \A j \in DOMAIN tcs[i] : tcs[i][j].ls
+               LowWord(t) == [j \in DOMAIN t |-> t[j].low[1]]
+               ok4 == ~c.icase \/ ~stable \/ Cardinality({LowWord(tcs[i]) : i \in DOMAIN tcs}) = Len(Ev.list)
+           IN /\ Judge(ok4, {"C04"}, "collapse", "")
+              /\ Judge(ok1, IF c.icase THEN {"C04", "C01"} ELSE {"C01", "C02"}, "pre-set", "")
               /\ Judge(ok2, ExactProps(c), "pre-lang", "")
               \* order / duplicate-freeness of the internal list is Level-2 detail: a note, never a verdict
               /\ Judge(ok3, {"TOOL"}, "pre-not-canonical", "")
@@ -169,17 +200,21 @@ TTrie == /\ IsEvent("trie") /\ pc \in {"cl2", "sc1"} /\ Ev.r = run.r
                 cl == DescAst(ClustersAst(run.cl))
                 okA == Acyclic(Ev)
                 eq == okA /\ Same(lang, cl)
-                asb == IF ~eq /\ Ev.widen > 0
-                       THEN DescGraph(AsGraph(BuildTrie(run.cl, AsBuilt), 0)) ELSE Nothing
+                mtrie == BuildTrie(run.cl, AsBuilt)
+                same == SameGraph(Ev, mtrie, 0)
+                asb == IF ~eq /\ Ev.widen > 0 THEN DescGraph(AsGraph(mtrie, 0)) ELSE Nothing
                 why == IF eq THEN "ok"
                        ELSE IF okA /\ Ev.widen > 0 /\ Same(lang, asb) THEN "widen" ELSE "no"
             IN /\ Judge(okA, {"C16"}, "trie-cyclic", "")
                /\ JudgeX(why, {"C16"} \cup (IF run.cfg.rep THEN {"C05"} ELSE {}), "trie")
-               /\ run' = [run EXCEPT !.glang = lang, !.widen = Ev.widen,
+               /\ Judge(same, {"TOOL"}, "level2-drift-trie", "")
+               /\ run' = [run EXCEPT !.glang = lang, !.widen = Ev.widen, !.mtrie = mtrie,
                                      !.widened = (why = "widen"), !.asbuilt = asb,
                                      !.firstbad = FirstBad(why = "ok", "trie")]
+               /\ cnt' = Bump({"trie", IF same THEN "l2-trie-same" ELSE "l2-trie-diff"}
+                              \cup (IF Ev.widen > 0 THEN {"trie-widened"} ELSE {}))
          /\ pc' = IF pc = "cl2" THEN "trie" ELSE "trie2"
-         /\ l' = l + 1 /\ cnt' = Bump({"trie"} \cup (IF Ev.widen > 0 THEN {"trie-widened"} ELSE {}))
+         /\ l' = l + 1
          /\ UNCHANGED <<G, tcs, memo>>
 
 TMin == /\ IsEvent("min") /\ pc = "trie" /\ Ev.r = run.r
@@ -189,13 +224,17 @@ TMin == /\ IsEvent("min") /\ pc = "trie" /\ Ev.r = run.r
                       ELSE IF okA /\ HasEps(run.glang) /\ ~HasEps(lang) /\ SameNoEps(lang, run.glang)
                            THEN "eps-dropped" ELSE "no"
                okS == run.cfg.rep \/ MinShapeOk(Ev)
+               mmin == Minimize(run.mtrie, AsBuilt)
+               sameM == SameGraph(Ev, mmin, mmin.init)
            IN /\ Judge(okA, {"C16"}, "min-cyclic", "")
               /\ JudgeX(why, {"C16"}, "min-lang")
               /\ Judge(okS, {"C16"}, "min-shape", "")
-              /\ run' = [run EXCEPT !.glang = lang, !.eps = (why = "eps-dropped"),
+              /\ Judge(sameM, {"TOOL"}, "level2-drift-min", "")
+              /\ run' = [run EXCEPT !.glang = lang, !.eps = (why = "eps-dropped"), !.mmin = mmin,
                                     !.firstbad = FirstBad(why = "ok", "min")]
+              /\ cnt' = Bump({"min", IF sameM THEN "l2-min-same" ELSE "l2-min-diff"}
+                             \cup (IF run.cfg.rep THEN {} ELSE {"min-shape"}))
         /\ pc' = "min" /\ l' = l + 1
-        /\ cnt' = Bump({"min"} \cup (IF run.cfg.rep THEN {} ELSE {"min-shape"}))
         /\ UNCHANGED <<G, tcs, memo>>
 
 (***************************************************************************)
@@ -204,11 +243,17 @@ TMin == /\ IsEvent("min") /\ pc = "trie" /\ Ev.r = run.r
 TExpr == /\ IsEvent("expr") /\ pc \in {"min", "trie2"} /\ Ev.r = run.r
          /\ LET lang == DescAst(Ev.ast)
                 why == IF ~TrimAst(Ev.ast) THEN "no" ELSE Expl(lang, run.glang)
+                \* Level-2 conformance of state elimination (plain runs only: the transcription works on
+                \* characters, class tokens and fold orbits are outside it)
+                plain == pc = "min" /\ ~AnyClass(run.cfg) /\ ~run.cfg.icase
+                sameE == ~plain \/ SameAst(Ev.ast, XToLang(ToExpr(run.mmin, run.mmin.init)))
             IN /\ JudgeX(why, {"C16"}, "expr")
+               /\ Judge(sameE, {"TOOL"}, "level2-drift-expr", "")
                /\ run' = [run EXCEPT !.elang = lang, !.exprs = @ + 1,
                                      !.firstbad = FirstBad(why = "ok", "expr")]
+               /\ cnt' = Bump({"expr"} \cup (IF plain THEN {IF sameE THEN "l2-expr-same" ELSE "l2-expr-diff"} ELSE {}))
          /\ pc' = IF pc = "min" THEN "expr" ELSE "expr2"
-         /\ l' = l + 1 /\ cnt' = Bump({"expr"})
+         /\ l' = l + 1
          /\ UNCHANGED <<G, tcs, memo>>
 
 (* the self-check ("does a search of every test case return the whole test case?") is run by  *)
@@ -228,7 +273,7 @@ TFallback == /\ IsEvent("fallback") /\ pc = "sc2" /\ Ev.r = run.r
 
 TFinal == /\ IsEvent("final") /\ pc \in {"expr", "expr2", "fallback"} /\ Ev.r = run.r
           /\ LET lang == DescAst(Ev.ast)
-                 why == IF ~TrimAst(Ev.ast) THEN "no" ELSE Expl(lang, DescAst(ClustersAst(run.cl)))
+                 why == IF ~TrimAst(Ev.ast) THEN "no" ELSE ExplFinal(lang, DescAst(ClustersAst(run.cl)))
              IN /\ JudgeX(why, {"C16"}, "final")
                 /\ run' = [run EXCEPT !.elang = lang, !.firstbad = FirstBad(why = "ok", "final")]
           /\ pc' = "final" /\ l' = l + 1 /\ cnt' = Bump({"final"})
@@ -249,7 +294,7 @@ EngineBound(c) == ~c.color /\ ~c.surr
 TwinLang(c, opt, base, props, lang) ==
   LET m == MemoOf(base) IN
   IF c = base \/ ~m.found \/ ~m.m.haslang THEN TRUE
-  ELSE LET eps == run.eps \/ m.m.eps
+  ELSE LET eps == EpsAfterCheck(run.eps, run.cfg) \/ EpsAfterCheck(m.m.eps, m.m.cfg)
            w1 == ExplBy(lang, m.m.lang, eps, run.widened, run.asbuilt)
            \* the twin itself may be the widened one
            w2 == IF w1 # "no" THEN w1 ELSE ExplBy(m.m.lang, lang, eps, m.m.widened, m.m.asbuilt)
@@ -273,7 +318,7 @@ TOut ==
          judged == run.judged /\ hirok
          lang == IF hirok THEN DescAst(o.hir) ELSE Nothing
          okPrint == ~hirok \/ Same(lang, run.elang)
-         whyExact == IF ~judged THEN "ok" ELSE Expl(lang, DescAst(ExpAst(tcs, c, G)))
+         whyExact == IF ~judged THEN "ok" ELSE ExplFinal(lang, DescAst(ExpAst(tcs, c, G)))
          whySound == IF ~judged THEN "ok"
                      ELSE ExplTcs({i \in DOMAIN tcs : ~Accepts(lang, TheWord(tcs[i]))})
          m == MemoOf(c)
@@ -353,6 +398,11 @@ TObs ==
 (* S0 and the front ends: builder histories (C07 C10 C14 C17)              *)
 (***************************************************************************)
 FrontProp(front) == CASE front = "rust" -> "C10" [] front = "py" -> "C14" [] front = "wasm" -> "C17"
+(* a build whose result differs from the library's for the settings the history denotes also breaks the   *)
+(* properties that are about those settings                                                              *)
+SettingProps(c) == (IF c.rep THEN {"C13", "C05"} ELSE {}) \cup (IF AnyClass(c) THEN {"C03"} ELSE {})
+                   \cup (IF c.icase THEN {"C04"} ELSE {}) \cup (IF c.nostart \/ c.noend THEN {"C08"} ELSE {})
+                   \cup (IF c.escape THEN {"C11"} ELSE {})
 
 EmitHX(props, kind, h, k, extra, why) ==
   PrintT(ToJson([verdict |-> kind, props |-> props, g |-> 0, r |-> 0, h |-> h, k |-> k,
@@ -391,7 +441,8 @@ HistFold(front, h, ops, k, objs, mm) ==
                                      ELSE EmitHX({"C14"}, "py-fullmatch", h, k, "",
                                                  IF op.failed # <<>> /\ \A i \in DOMAIN op.failed : op.failed[i] = <<>>
                                                  THEN "eps-dropped" ELSE ""))
-                            ELSE JudgeH(op.sid = op.libsid, {P}, "front-differs-from-library", h, k, "")))
+                            ELSE JudgeH(op.sid = op.libsid, {P} \cup (IF front = "rust" THEN SettingProps(r.cfg) ELSE {}),
+                                        "front-differs-from-library", h, k, "")))
                   /\ HistFold(front, h, ops, k + 1, r.objs, mm2)
 
 THist == /\ IsEvent("hist") /\ pc = "idle"
